@@ -189,6 +189,8 @@ class VM2:
             st['steps'] += 1; self.nsteps += 1
             pc = st['pc']
             if not (0 <= pc < len(P.code)): raise Unspecified(f'pc {pc} outside code')
+            hook = getattr(self, 'on_pc', None)
+            if hook is not None: hook(st, pc, conds, res)
             fo = getattr(self, 'func_of', None)
             if fo is not None:
                 pp = st.get('prev_pc')
